@@ -1229,9 +1229,91 @@ impl Interp {
                 }
                 let dts: [u64; 10] = [60, 120, 300, 450, 600, 840, 899, 900, 901, 15];
                 let dt = dts[(*knob as usize) % dts.len()];
-                self.w.follow.push_back(Act::NextBlock { dt });
+                if *knob % 16 == 7 {
+                    // busy market: about a hundred blocks a few seconds apart, each with a dust trade, fill the time between the move
+                    // and the attempt (the 15-minute window then holds far more snapshots than a quiet market's)
+                    let n = 96 + (*knob as usize / 16) % 24;
+                    for k in 0..n {
+                        self.w.follow.push_back(Act::NextBlock { dt: 3 + (k as u64 % 5) });
+                        let dust = self.whale_trade(pre, v, up, 1 + (k as u128 % 3));
+                        self.w.follow.push_back(dust);
+                    }
+                    self.w.follow.push_back(Act::NextBlock { dt: 4 });
+                } else {
+                    self.w.follow.push_back(Act::NextBlock { dt });
+                }
                 self.w.follow.push_back(Act::Liquidate { who: self.w.liquidator.clone(), v, target, limit: 0, attach: 0 });
                 self.whale_trade(pre, v, up, push_quote_amount(x, up, hi))
+            }
+            Op::MatchPrepaid { v, t, knob } => {
+                // the engine's prepaid-bad-debt counter is brought to exactly the bad debt the weakest position's liquidation would
+                // realise (or one unit beside it): the liquidation is tried on a what-if copy and announces its bad debt B; another
+                // trader then withdraws margin of vault balance + (B - counter), so that the insurance fund advances exactly the
+                // difference; the liquidation follows as the next step
+                let v = self.v_of(*v);
+                let mut best: Option<(S, usize)> = None;
+                for tt in 0..N_TRADERS {
+                    if pre.pos[v][tt].as_ref().map(|p| !p.size.is_zero()).unwrap_or(false) {
+                        if let Some(r) = self.margin_ratio(v, tt) {
+                            if best.as_ref().map(|b| r.lt(&b.0)).unwrap_or(true) {
+                                best = Some((r, tt));
+                            }
+                        }
+                    }
+                }
+                let target = match best {
+                    Some((_, tt)) => tt,
+                    None => return Act::Skip,
+                };
+                let liq = Act::Liquidate { who: self.w.liquidator.clone(), v, target, limit: 0, attach: 0 };
+                let snap = self.w.snapshot();
+                let r = self.exec_act(&liq);
+                self.w.restore(&snap);
+                if !r.ok {
+                    return Act::Skip;
+                }
+                let b: u128 = r
+                    .events
+                    .iter()
+                    .flat_map(|e| e.attributes.iter())
+                    .filter(|a| a.key == "bad_debt")
+                    .filter_map(|a| a.value.parse::<u128>().ok())
+                    .max()
+                    .unwrap_or(0);
+                let p0 = pre.estate.bad_debt.u128();
+                if b == 0 || b < p0 {
+                    return Act::Skip;
+                }
+                if b == p0 {
+                    return liq;
+                }
+                let w_need = match idx(*knob, 4) {
+                    0 | 1 => b - p0,
+                    2 => b - p0 + 1,
+                    _ => (b - p0).saturating_sub(1).max(1),
+                };
+                let vault = pre.bal[self.w.idx_engine()];
+                let amount = vault.saturating_add(w_need);
+                // a trader other than the target whose free collateral covers the amount
+                let start = (*t as usize) % N_TRADERS;
+                for k in 0..N_TRADERS {
+                    let tt = (start + k) % N_TRADERS;
+                    if tt == target || pre.pos[v][tt].is_none() {
+                        continue;
+                    }
+                    let fc = self
+                        .w
+                        .query::<Integer, _>(&self.w.engine, &eng::QueryMsg::FreeCollateral { vamm: self.w.vamms[v].to_string(), trader: self.w.traders[tt].clone() })
+                        .ok()
+                        .map(S::from_integer);
+                    if let Some(fc) = fc {
+                        if !fc.is_neg() && fc.mag_u128().map(|m| m >= amount).unwrap_or(false) {
+                            self.w.follow.push_back(liq);
+                            return Act::Withdraw { t: tt, v, amount };
+                        }
+                    }
+                }
+                Act::Skip
             }
             Op::Handover { to } => {
                 // the pauser role is handed to a trading account (or back to the deployment's pauser account)
